@@ -1751,13 +1751,23 @@ func (fr *Frame) copyBuiltin(t *ssa.Call) {
 		unsup("copy from string")
 	}
 	st := vc.rt(args[0].Type()).Underlying().(*types.Slice)
-	if nestedStruct(vc, st.Elem()) {
-		unsup("copy of elements with nested struct fields")
-	}
 	bv := bvSort(64)
 	n := vc.name("copyn", ite(app(SBool, "bvule", slen(dst), slen(src)), slen(dst), slen(src)))
 	hs := map[string]bool{}
 	vc.heapsOfType(st.Elem(), hs)
+	if nestedStruct(vc, st.Elem()) {
+		// elements with nested struct fields: over-approximation -- everything inside the
+		// destination's allocation is arbitrary afterwards, memory of other allocations is kept
+		for _, h := range sortedKeys(hs) {
+			oldH := vc.heapGet(fr.st, h)
+			nh := vc.havocHeap(fr.st, h)
+			vc.asserts = append(vc.asserts,
+				fmt.Sprintf("(forall ((q Ptr)) (! (=> (not (= (alloc q) (alloc %[2]s))) (= (select %[1]s q) (select %[3]s q))) :pattern ((select %[1]s q))))",
+					nh.S, sptr(dst).S, oldH.S))
+		}
+		fr.set(t, n)
+		return
+	}
 	for _, h := range sortedKeys(hs) {
 		oldH := vc.heapGet(fr.st, h)
 		nh := vc.havocHeap(fr.st, h)
